@@ -15,6 +15,7 @@
 import Batteries.Data.List.Basic   -- `List.Forall₂`
 import GoPipeline.Model.Signing
 import GoPipeline.Lemmas.PluginSource
+import GoPipeline.Lemmas.PluginSourceIdem   -- `Marshal.fullSource_idem`
 namespace GoPipeline.Jcs
 
 /-! ## 1. Strings -/
@@ -965,18 +966,18 @@ theorem nil_vs_empty :
   refine ⟨rfl, rfl, fun m hm => ?_⟩
   simp [matrixField, hm]
 
+/-- For every source (canonicalisation is idempotent for every string since fix 3ced888, F17). -/
+theorem source_spelling_any (p : Plugin) :
+    mPlugin { p with source := fullSource p.source } = mPlugin p := by
+  simp only [mPlugin, fullSource_idem p.source]
+
+/-- The statement on the documented domain (kept for `C14_source_spelling`; the hypothesis is not
+    needed any more). -/
 theorem source_spelling (p : Plugin)
-    (hd : (∀ c ∈ p.source.toList, PluginSrc.isDomChar c = true) ∧
+    (_hd : (∀ c ∈ p.source.toList, PluginSrc.isDomChar c = true) ∧
           ((PluginSrc.cutHash p.source.toList).2 = [] ∨
            ∀ comp ∈ PluginSrc.splitOn '/' (PluginSrc.cutHash p.source.toList).2, comp ≠ [] ∧ comp ≠ ['.'] ∧ comp ≠ ['.', '.'])) :
-    mPlugin { p with source := fullSource p.source } = mPlugin p := by
-  obtain ⟨r, hr⟩ := PluginSrc.total_on_dom p.source.toList hd
-  have hi := PluginSrc.idempotent p.source.toList r hd hr
-  have e : fullSource (fullSource p.source) = fullSource p.source := by
-    have e1 : fullSource p.source = String.ofList r := by simp [fullSource, hr]
-    rw [e1]
-    simp [fullSource, String.toList_ofList, hi]
-  simp only [mPlugin, e]
+    mPlugin { p with source := fullSource p.source } = mPlugin p := source_spelling_any p
 
 theorem env_namespace (k : String) :
     (envNamespacePrefix ++ k) ∉ mandatoryFields ∧
